@@ -44,6 +44,10 @@ fn craft_wm_codes(freq: &mut HashMap<usize, u32>, sigma: usize) -> Vec<PrefixCod
         .collect::<Vec<_>>();
 
     f.sort_by_key(|x| x.1);
+    #[cfg(qwt_verif)]
+    if crate::verif_hooks::tie_seed().is_some() {
+        f.sort_by_key(|x| (x.1, crate::verif_hooks::tie_key(x.0)));
+    }
 
     let mut c = vec![0; alph_size * 4];
     let mut assignments = vec![PrefixCode { content: 0, len: 0 }; sigma + 1];
@@ -147,6 +151,12 @@ where
         // }
 
         // println!("awpl in bits: {}", awpl as f64 / tot_occs as f64);
+
+        #[cfg(qwt_verif)]
+        crate::verif_hooks::permute_lengths_among_equal_frequencies(
+            &freqs.iter().map(|(&k, &v)| (k, v)).collect::<Vec<_>>(),
+            &mut lengths,
+        );
 
         let codes = craft_wm_codes(&mut lengths, sigma.as_());
 
